@@ -28,6 +28,23 @@ func VerifC06Chain() {
 	keys := [3]solana.PublicKey{c06Key(0), c06Key(1), c06Key(2)}
 	var pushed [2][]linkedlog.OffsetAndSizeAndSlot // per address, in indexing order
 
+	if verifParam("big", 0) == 1 {
+		// C06.chain-big: address A starts with a batch of 28 or 29 entries with one-byte fields
+		// (4 bytes each) plus one entry with offset, slot < 2^14 (4..6 bytes): the first record of
+		// the chain is 126..128 or 131..133 bytes long in total, i.e. on both sides of the
+		// 1-byte/2-byte length prefix boundary, and its size is kept in the head/previous pointers.
+		nb := 29 + verifChoice("bigbatch", 2)
+		vals := make([]*linkedlog.OffsetAndSizeAndSlot, nb)
+		for i := range vals {
+			bits := uint(7)
+			if i == nb-1 {
+				bits = 14
+			}
+			vals[i] = c06SymEntry(bits)
+			pushed[0] = append(pushed[0], *vals[i])
+		}
+		verifAssert(w.flushKVs(linkedlog.KeyToOffsetAndSizeAndBlocktime{Key: keys[0], Values: vals}) == nil, "C06.chain: flushKVs (big batch) failed")
+	}
 	steps := 1 + verifChoice("steps", maxSteps)
 	for st := 0; st < steps; st++ {
 		which := verifChoice("address", 3) // 0: A, 1: B, 2: one batch for each in one call
